@@ -1,6 +1,10 @@
 package main
 
-import "verif/simrt"
+import (
+	"verif/simrt"
+
+	"github.com/AsaiYusuke/jsonpath"
+)
 
 // C06 — Parse and parsed functions are safe for concurrent use (DESIGN.md §4).
 //
@@ -74,6 +78,28 @@ func runC06() *RunResult {
 	expectCall := func(p *PathSpec, c CfgSpec, doc int, f [nFuncs]uint64) (string, string) {
 		return expectCallP(p, c, doc, f, [nFuncs]uint64{})
 	}
+	// a few (path, Config VALUE) pairs that several tasks parse at about the same time: the very
+	// same Config value (same function tables) and the very same path, valid or failing
+	type hotParse struct {
+		p   *PathSpec
+		cfg CfgSpec
+		val []jsonpath.Config
+	}
+	var hot []hotParse
+	for i := rn(3); i > 0; i-- {
+		cfg := genCfg(true)
+		cfg.Present = true
+		var p *PathSpec
+		switch rn(3) {
+		case 0:
+			p = genFailPath()
+		case 1:
+			p = &PathSpec{Text: genPathFor(w.docs[0].Val, cfg.Funcs, trap, 3, 0).Text + ".nofn()"}
+		default:
+			p = genPathFor(w.docs[rn(nd)].Val, cfg.Funcs, trap, 4, 2)
+		}
+		hot = append(hot, hotParse{p, cfg, []jsonpath.Config{buildConfig(cfg)}})
+	}
 	pub := make([]*PathSpec, nt) // the one path each task may publish
 	pubCfg := make([]CfgSpec, nt)
 	for ti := 0; ti < nt; ti++ {
@@ -105,6 +131,11 @@ func runC06() *RunResult {
 					slot = 1 // slot 0 keeps the publishable path
 				}
 				o := &Op{Kind: opParse, Path: p, Cfg: cfg, Slot: slot}
+				if len(hot) > 0 && chance(40) {
+					h := hot[rn(len(hot))]
+					p, cfg = h.p, h.cfg
+					o.Path, o.Cfg, o.CfgVal = p, cfg, h.val
+				}
 				expect(o, func() (string, string) { return soloParse(p, cfg).Out, "" })
 				t.ops = append(t.ops, o)
 				slotPath[slot], slotCfg[slot] = p, cfg
